@@ -297,10 +297,12 @@ class MoveMemrefDims(RewritePattern):
                 dim_op.results[0].replace_all_uses_with(new_dim_op.results[0])
             for_op = find_parent_for_loop(dim_op)
 
-            if is_in_loop(new_dim_op):
+            assert for_op is not None
+            # an op that already sits in front of this loop (e.g. in the body of an enclosing loop) stays where it
+            # is: moving it down to the loop would put it behind its earlier users
+            if for_op.is_ancestor(new_dim_op):
                 new_dim_op.detach()
 
-            assert for_op is not None
             if new_dim_op.parent_op() is None:
                 rewriter.insert_op(new_dim_op, InsertPoint.before(for_op))
             if new_dim_op is not dim_op:
